@@ -494,7 +494,23 @@ impl HttpRequest for HHttp {
         {
             let mut h = hub.lock().unwrap();
             if let Some(orig) = h.mutated_apps.take() {
-                LOCKS.with(|l| if let Some((_, a)) = &*l.borrow() { if let Some(mut set) = a.try_lock() { set.apps = orig; } });
+                // the old values come back — except the cohort hint of an app for which the answer about to be given is a response
+                // the client will accept and that carries a hint for it: the response's value replaces whatever the app has, so the
+                // embedder's change may stay without the end state differing
+                let cup_on = h.cup_sign.is_some();
+                let covered: Vec<String> = match (h.mock.is_none(), h.env.uc.front()) {
+                    (true, Some(HttpOutcome::Resp { status, authentic, body, .. })) if (200..300).contains(status) && (*authentic || !cup_on) && h.env.plan.is_some() => {
+                        match omaha_client::protocol::response::parse_json_response(body) {
+                            Ok(r) => orig.iter().filter(|a| r.apps.iter().filter(|ra| ra.id == a.id).count() == 1 && r.apps.iter().any(|ra| ra.id == a.id && ra.cohort.hint.is_some())).map(|a| a.id.clone()).collect(),
+                            Err(_) => vec![],
+                        }
+                    }
+                    _ => vec![],
+                };
+                LOCKS.with(|l| if let Some((_, a)) = &*l.borrow() { if let Some(mut set) = a.try_lock() {
+                    set.apps = orig;
+                    for app in set.apps.iter_mut() { if covered.contains(&app.id) { app.cohort.hint = Some("changed-by-the-embedder".into()); } }
+                } });
             }
         }
         async move {
